@@ -1,1 +1,67 @@
-//! (filled in below)
+//! Units about the weighted-index types that the Verus proofs rely on or cannot reach:
+//!  * the ASSUMED contract of rand's `Weight::checked_add_assign` (used by the tree proof) is discharged here against
+//!    rand's real implementation, for every integer weight type and every pair of values (loop-free: complete);
+//!  * float weights (outside Verus' reach): bounded no-panic units for `WeightedTreeIndex<f32>` and the pinned known finding.
+use super::rd;
+use super::rngs::AnyRng;
+use rand::distr::weighted::Weight;
+use rd::weighted::WeightedTreeIndex;
+
+macro_rules! checked_add_assign_contract {
+    ($name:ident, $T:ty) => {
+        #[kani::proof]
+        fn $name() {
+            let a0: $T = kani::any();
+            let b: $T = kani::any();
+            let mut a = a0;
+            let r = a.checked_add_assign(&b);
+            let exact = (a0 as i128).checked_add(b as i128);      // mathematical sum (fits i128 for every type but the 128-bit ones)
+            let fits = a0.checked_add(b).is_some();
+            kani::cover!(r.is_ok(), "no overflow reachable");
+            kani::cover!(r.is_err(), "overflow reachable");
+            kani::assert(r.is_ok() == fits, "Ok iff the mathematical sum fits the type");
+            if r.is_ok() { kani::assert(Some(a) == a0.checked_add(b), "on Ok the value is the exact sum"); }
+            else { kani::assert(a == a0, "on Err the value is unchanged"); }
+            let _ = exact;
+        }
+    };
+}
+checked_add_assign_contract!(weight_checked_add_assign_u8, u8);
+checked_add_assign_contract!(weight_checked_add_assign_u16, u16);
+checked_add_assign_contract!(weight_checked_add_assign_u32, u32);
+checked_add_assign_contract!(weight_checked_add_assign_u64, u64);
+checked_add_assign_contract!(weight_checked_add_assign_u128, u128);
+checked_add_assign_contract!(weight_checked_add_assign_usize, usize);
+checked_add_assign_contract!(weight_checked_add_assign_i8, i8);
+checked_add_assign_contract!(weight_checked_add_assign_i16, i16);
+checked_add_assign_contract!(weight_checked_add_assign_i32, i32);
+checked_add_assign_contract!(weight_checked_add_assign_i64, i64);
+checked_add_assign_contract!(weight_checked_add_assign_i128, i128);
+checked_add_assign_contract!(weight_checked_add_assign_isize, isize);
+
+/// KNOWN FINDING (float weights, ordinary magnitudes): the largest draw lands within rounding error of a subtree
+/// boundary; `target - left_subtotal` is then not below the rounded residual weight and the internal assertion
+/// `target_weight < self.get(index)` fires although is_valid() is true.  Found by the symbolic 2-node unit
+/// (all weights, all words) and pinned here on its counterexample; the symbolic unit cannot be kept as an obligation
+/// because no simple witness class separates these roundings.
+#[kani::proof]
+#[kani::unwind(4)]
+fn kf_tree_f32_rounding_panics() {
+    let t = WeightedTreeIndex::<f32>::new([f32::from_bits(0x5fb09800), f32::from_bits(0x5af9fe00)]).unwrap();   // 2.5449841e19, 3.5183273e16
+    assert!(t.is_valid());
+    let mut rng = super::rngs::WordsRng::<2>::of([0xffff_ffffu64, 0xffff_ffffu64]);
+    let r = t.try_sample(&mut rng);
+    kani::assert(r.is_ok(), "is_valid() implies try_sample succeeds");
+}
+
+/// KNOWN FINDING: with a subnormal total, rand's float `random_range(0..total)` can return `total` itself and the
+/// internal assertion `target_weight < self.get(index)` fires although is_valid() is true.
+#[kani::proof]
+#[kani::unwind(4)]
+fn kf_tree_f32_subnormal_total_panics() {
+    let t = WeightedTreeIndex::<f32>::new([f32::from_bits(451), -0.0f32]).unwrap();   // 6.32e-43, -0.0
+    assert!(t.is_valid());
+    let mut rng = super::rngs::WordsRng::<2>::of([4293766655u64, 4293766655u64]);
+    let r = t.try_sample(&mut rng);
+    kani::assert(r.is_ok(), "is_valid() implies try_sample succeeds");
+}
